@@ -86,10 +86,37 @@ def clause3(P, res):
             res.violated(rid, key, detail, where=p.loc, witness=[f"publish {p.loc}", row["why"]])
 
 
+def clause4(P, res):
+    from rules import disconnect
+    rid = "C05-4"
+    res.rule(rid, "disconnect wakes the other side: for every handle type whose peers can wait (table of exemptions with reasons in rules/disconnect.py), the "
+                  "close path Drop::drop -> close -> close_internal/drop_* reaches a waker, and in every body on that path the call that leads to the wake "
+                  "lies on every entry-to-return path that is not excused by a test of the handle's closed/disconnected flag or of the handle counter "
+                  "(notifier bodies that consume the waiter slot are the domain of C05-1/C05-2)")
+    seen = set()
+    n = 0
+    for r in disconnect.check(P):
+        hp, b, st, detail, where = r[:5]
+        key = f"{hp}" if b is None or "reaches no waker" in detail else f"path:{b.id}"
+        if key in seen:
+            continue
+        seen.add(key)
+        n += 1
+        if st == "holds":
+            res.holds(rid, key, detail, where=where, nontrivial=not detail.startswith("exempt"))
+        elif st == "violated":
+            res.violated(rid, key, detail, where=where)
+        else:
+            res.unclassified(rid, key, detail, where=where)
+    if n < 50:
+        res.violated(rid, "close-path-instances", f"expected >= 50 close-path instances, found {n}")
+
+
 def run(P, ctx):
     res = Result("C05")
     res.extra["explanation"] = "Park/notify protocol shapes at every site that blocks a thread in fibre's channels."
     clause1(P, res)
     clause2(P, res)
     clause3(P, res)
+    clause4(P, res)
     return res
